@@ -94,7 +94,17 @@ NOT_APPLICABLE = {
 }
 
 
+def regen_names():
+    """contracts/names.json: Go types of the locals the contracts name, from the unchanged tree (rename tolerance)."""
+    import subprocess, os
+    root = os.path.dirname(os.path.dirname(os.path.abspath(__file__)))
+    govc = os.path.join(root, "bin", "govc")
+    if os.path.exists(govc) and not subprocess.run(["git", "-C", "/repo", "status", "--porcelain"], capture_output=True, text=True).stdout.strip():
+        subprocess.run([govc, "-names", os.path.join(root, "contracts", "names.json")], stdout=subprocess.DEVNULL)
+
+
 def main():
+    regen_names()
     props = [json.loads(l) for l in open(os.path.join(ROOT, "properties.jsonl"))]
     hooks = []
     try:
